@@ -445,6 +445,34 @@ ENUM_STRINGS = ["a", "b c", " b   c ", "b\tc", "x  y", "x y", "d", "", " ", "1",
                 "a  b", "nope", "1 2 3", "\xa0a\xa0"]
 
 FACTORY_ENUMS = [ENUMS[0], ENUMS[1], ENUMS[2], ENUMS[3]]
+DT_FORMATS = {
+    "date": ["%Y-%m-%d", "%d/%m/%Y", "%Y%m%d", "%Y-%j"],
+    "time": ["%H:%M:%S", "%H:%M:%S.%f", "%H%M%S", "%I:%M:%S %p"],
+    "datetime": ["%Y-%m-%dT%H:%M:%S", "%Y-%m-%dT%H:%M:%S.%f", "%Y-%m-%d %H:%M:%S", "%d.%m.%Y %H:%M:%S", "%Y-%m-%dT%H:%M:%S%z"],
+}
+
+
+def g_dt_value(r, kind, fmt):
+    import datetime as _dt
+    y = r.choice([1, 9, 99, 100, 999, 1000, 1582, 1900, 1970, 2000, 2024, 9999, r.randint(1, 9999), r.randint(1000, 9999), r.randint(1000, 9999)])
+    mo = r.randint(1, 12)
+    d = r.randint(1, 28) if r.random() < 0.8 else r.choice([29, 30, 31])
+    try:
+        date = _dt.date(y, mo, d)
+    except ValueError:
+        date = _dt.date(y, mo, 28)
+    us = r.choice([0, 1, 999999, 500000, r.randrange(1000000)]) if "%f" in fmt else 0
+    time = _dt.time(r.randint(0, 23), r.randint(0, 59), r.randint(0, 59), us)
+    if kind == "date":
+        return date
+    if kind == "time":
+        return time
+    tz = None
+    if "%z" in fmt:
+        tz = _dt.timezone(_dt.timedelta(minutes=r.choice([0, 60, -300, 330, 840, -840, r.randint(-840, 840)])))
+    return _dt.datetime.combine(date, time, tzinfo=tz)
+
+
 DOC_POOL = ["int", "bool", "float", "Decimal", "QName", "str"]
 TYPE_POOL = ["int", "bool", "str", "bytes", "object", "Unreg0", "Unreg1", "float", "Decimal", "QName", "Enum:0", "Enum:2", "Enum:3"]
 
@@ -641,6 +669,14 @@ def run(ck: Check):
                     op["ns_map"] = m
                 add(op, kind="enum_ser", members=members, j=j, m=m)
 
+    # ---------------- date / time / datetime with strftime formats (through the real converter only)
+    for kind, fmts in DT_FORMATS.items():
+        for fmt in fmts:
+            for _ in range(12 * N):
+                v = g_dt_value(r, kind, fmt)
+                add({"op": "roundtrip", "type": kind, "v": {"t": kind, "v": v.isoformat()}, "format": fmt}, kind="dt_fmt", dkind=kind, fmt=fmt, v=v)
+        add({"op": "roundtrip", "type": kind, "v": {"t": kind, "v": g_dt_value(r, kind, "").isoformat()}}, kind="dt_nofmt")
+
     # ---------------- factory: sort_types and deserialize over candidate lists
     pool_strings = ["1", "0", "true", "false", " 1 ", "12", "-7", "+3", "abc", "", "00", "AAAA", "1_0", "١", "ff", "QUJD",
                     "\xa01", "tr ue", "1.0", "0x1", "1e5", "INF", "NaN", "nan", "1.50", "p:x", "x", "{urn:a}x", "a", "b c", "2", "1_0.5", "Infinity",
@@ -657,6 +693,12 @@ def run(ck: Check):
         add({"op": "deser", "types": types, "s": s, "format": fmt, "ns_map": nsm, "enums": FACTORY_ENUMS}, kind="deserialize", fmt=fmt, nsm=nsm)
     res = run_impl("impl_c05.py", ops, timeout=1500)
     ck.cov["evaluations"] = len(ops)
+
+    # formatted dates: the produced text with surrounding XML whitespace must read back as the same value
+    dtw = [(i, {"op": "deser", "types": [meta[i]["dkind"]], "s": r.choice([" ", "\n", "\t "]) + res[i]["ok"] + r.choice([" ", "\n", "  "]),
+                "format": meta[i]["fmt"]}) for i in range(len(ops)) if meta[i]["kind"] == "dt_fmt" and "ok" in res[i] and res[i].get("same")]
+    dtw_res = run_impl("impl_c05.py", [o for _, o in dtw])
+    ck.cov["evaluations"] += len(dtw)
 
     # priority oracle: second pass = each candidate alone + the sorted list
     pr_ops, pr_meta = [], []
@@ -1045,6 +1087,24 @@ def run(ck: Check):
             else:
                 fail("enum-roundtrip", what, {"op": it[1], "impl": it[2]})
 
+        # ---------------- date / time / datetime with formats: oracles on the implementation only
+        for it in items_of("dt_fmt"):
+            v, fmt = it[3]["v"], it[3]["fmt"]
+            what = f"{it[3]['dkind']} {v.isoformat()} format={fmt!r} -> {it[2]}"
+            if it[2].get("same"):
+                continue
+            if "%Y" in fmt and getattr(v, "year", 9999) < 1000:
+                fail("datetime-format-year-below-1000", what, {"op": it[1], "impl": it[2]})
+            else:
+                fail("datetime-format-roundtrip", what, {"op": it[1], "impl": it[2]})
+        for (i, o), rs in zip(dtw, dtw_res):
+            if "ok" not in rs or rs["ok"]["v"] != ops[i]["v"]["v"]:
+                fail("datetime-format-surrounding-whitespace", f"{o['types'][0]} text {o['s']!r} format={o['format']!r} -> {rs}", {"op": o, "impl": rs})
+        for it in items_of("dt_nofmt"):
+            if it[2].get("err") != "ConverterError":
+                fail("datetime-missing-format-not-reported", f"{it[1]} -> {it[2]}", {"op": it[1], "impl": it[2]})
+        distinct |= {("dt_fmt", it[3]["dkind"], it[3]["fmt"], it[3]["v"].isoformat()) for it in items_of("dt_fmt")}
+
         # ---------------- factory
         items = [it for it in items_of("sort_types") if "ok" in it[2]]
         terms = [f"({clist(it[1]['types'], ty_term, 'pytype')}, {clist(it[2]['ok'], ty_term, 'pytype')})" for it in items]
@@ -1090,6 +1150,15 @@ def run(ck: Check):
     ck.cov["samples"] = [{"op": str(ops[i])[:200], "impl": str(res[i])[:200]} for i in (0, len(ops) // 3, len(ops) // 2, len(ops) - 5, len(ops) - 1)]
     return ck.finish(obligations=obligations, discharged=discharged,
                      checker_cmd="make -C coq Properties/C05.vo && coqc -Q coq XV coq/Properties/C05.v (Print Assumptions)",
-                     trusted_base=TRUSTED_COMMON + ["axioms: " + (", ".join(axioms) or "none (closed under the global context)")],
+                     trusted_base=TRUSTED_COMMON + [
+                         "axioms: " + (", ".join(axioms) or "none (all 50 statements closed under the global context)"),
+                         "float: the five hypotheses of Proofs/ConvFloat.CPythonFloat about CPython's repr()/float() (shape of repr, "
+                         "float(repr x) == x, unique +-inf, NaN text gives NaN) and that float() rounds the decimal reading correctly — "
+                         "sampled every run (coverage.cpython_float_hypotheses_sampled), not proved",
+                         "tools/gen_conv.py: ast extraction + sre parse of URI_REGEX + interpreter tables (isalpha ranges, decimal limits, int digit limit)"],
                      assumptions=["Python types are identified by name; an Enum subclass / unregistered class is represented by an index",
-                                  "bytes are lists of numbers < 256"])
+                                  "bytes are lists of numbers < 256",
+                                  "enumeration member values are pairwise distinct under Python's == (no aliases); float-valued members not modelled",
+                                  "prefix maps are dicts (distinct keys); a '}' cannot occur in the URI of a Clark text",
+                                  "libmpdec exponent range (dec_fits) is kept as a hypothesis of the Decimal acceptance/round-trip theorems: unreachable below ~10^18 characters",
+                                  "date/time/datetime with strftime formats, XmlDuration/XmlPeriod through ProxyConverter, ConverterFactory.test(strict), float_datatype: not covered"])
